@@ -14,6 +14,8 @@ import (
 	"encoding/json"
 	"fmt"
 	"hash"
+	"io"
+	"math/big"
 	"os"
 	"os/exec"
 	"path/filepath"
@@ -33,6 +35,7 @@ import (
 	"go.dedis.ch/kyber/v4/pairing/bls12381/kilic"
 	"go.dedis.ch/kyber/v4/pairing/bn254"
 	"go.dedis.ch/kyber/v4/pairing/bn256"
+	"go.dedis.ch/kyber/v4/proof"
 	"go.dedis.ch/kyber/v4/proof/dleq"
 	"go.dedis.ch/kyber/v4/share"
 	"go.dedis.ch/kyber/v4/sign/bdn"
@@ -40,6 +43,7 @@ import (
 	"go.dedis.ch/kyber/v4/sign/cosi"
 	"go.dedis.ch/kyber/v4/sign/eddsa"
 	"go.dedis.ch/kyber/v4/sign/schnorr"
+	"go.dedis.ch/kyber/v4/util/random"
 	"go.dedis.ch/kyber/v4/xof/blake2xb"
 
 	"verifharness/internal/core"
@@ -56,6 +60,9 @@ type instance struct {
 	// build constructs the shared object(s) of one repetition: [0] = object A; [1] (if offered) = a DIFFERENT
 	// object B going through the same code paths (and the same suite / scheme object) for the "distinct" workloads
 	build func(rep string) []ops
+	// unique: every result is a comma-separated list of random draws; all draws of all goroutines of a repetition
+	// must be pairwise distinct (there is no sequential value to compare a true random source with)
+	unique bool
 }
 
 func one(f func(rep string) ops) func(rep string) []ops {
@@ -186,7 +193,20 @@ func scalarInstance(name string) instance {
 			panic(err)
 		}
 		var s kyber.Scalar
-		if rep == "decoded" {
+		if rep == "unreduced" {
+			// bytes encoding (order + small value): accepted by decoders that take any fixed-length string
+			v := new(big.Int).Add(g.Order, big.NewInt(xv%1000+5))
+			b := v.FillBytes(make([]byte, len(enc)))
+			if g.ScalarLE {
+				for i, j := 0, len(b)-1; i < j; i, j = i+1, j-1 {
+					b[i], b[j] = b[j], b[i]
+				}
+			}
+			s = g.Group.Scalar()
+			if err := s.UnmarshalBinary(b); err != nil {
+				return nil // this implementation rejects unreduced encodings: representation not offered
+			}
+		} else if rep == "decoded" {
 			s = g.Group.Scalar()
 			if err := s.UnmarshalBinary(enc); err != nil {
 				panic(err)
@@ -217,7 +237,11 @@ func scalarInstance(name string) instance {
 		return o
 	}
 	return instance{kind: "scalar", config: g.ScalarTy, cost: 1, build: func(rep string) []ops {
-		return []ops{mk(rep, 123456789, -7), mk(rep, 987654321, -11)}
+		a, b := mk(rep, 123456789, -7), mk(rep, 987654321, -11)
+		if a == nil || b == nil {
+			return nil
+		}
+		return []ops{a, b}
 	}}
 }
 
@@ -734,6 +758,152 @@ func blsVerifier(sk string, seed int64, useBdn bool) instance {
 	})
 }
 
+// ---------------------------------------------------------------- shared random streams
+
+// goReader is an entropy source written in Go (so that the race detector sees what is done with the bytes it
+// delivers); it is itself safe for concurrent use and never repeats a block.
+type goReader struct {
+	mu  sync.Mutex
+	ctr uint64
+	key [32]byte
+}
+
+func (r *goReader) Read(p []byte) (int, error) {
+	r.mu.Lock()
+	defer r.mu.Unlock()
+	for i := range p {
+		if i%8 == 0 {
+			r.ctr++
+		}
+		p[i] = byte(r.ctr>>(8*(uint(i)%8))) ^ r.key[i%32] ^ byte(i*131)
+	}
+	return len(p), nil
+}
+
+var _ io.Reader = (*goReader)(nil)
+
+// streamInstance: ONE stream object per repetition, drawn from by all goroutines; every operation draws several
+// times; all draws of a repetition must be pairwise distinct.
+func streamInstance(config string, seed int64) instance {
+	grp := edwards25519.NewBlakeSHA256Ed25519()
+	return instance{kind: "stream", config: config, cost: 1, unique: true, build: one(func(rep string) ops {
+		var rs cipher.Stream
+		var pick kyber.Group = grp
+		switch config {
+		case "random.New":
+			rs = random.New() // default source
+		case "random.New-goreaders":
+			a, b := &goReader{}, &goReader{}
+			core.Rng(seed, "goreader-a").Read(a.key[:])
+			core.Rng(seed, "goreader-b").Read(b.key[:])
+			rs = random.New(a, b)
+		case "ed25519-WithRand":
+			s := edwards25519.NewBlakeSHA256Ed25519WithRand(random.New())
+			rs, pick = s.RandomStream(), s
+		case "ed25519-WithRand-goreader":
+			a := &goReader{}
+			core.Rng(seed, "goreader-c").Read(a.key[:])
+			s := edwards25519.NewBlakeSHA256Ed25519WithRand(random.New(a))
+			rs, pick = s.RandomStream(), s
+		case "bn256-NewSuiteRand":
+			s := bn256.NewSuiteRand(random.New())
+			rs, pick = s.RandomStream(), s.G1()
+		case "bn254-NewSuiteRand":
+			s := bn254.NewSuiteRand(random.New())
+			rs, pick = s.RandomStream(), s.G1()
+		default:
+			panic("unknown stream configuration " + config)
+		}
+		draws := func(n, l int) string {
+			var out []string
+			for i := 0; i < n; i++ {
+				b := make([]byte, l)
+				rs.XORKeyStream(b, b)
+				out = append(out, hex.EncodeToString(b[:32]))
+			}
+			return strings.Join(out, ",")
+		}
+		return ops{
+			"Draw":     func() string { return draws(24, 32) },
+			"DrawLong": func() string { return draws(8, 200) },
+			"PickScalar": func() string {
+				var out []string
+				for i := 0; i < 12; i++ {
+					out = append(out, hx(pick.Scalar().Pick(rs).MarshalBinary()))
+				}
+				return strings.Join(out, ",")
+			},
+		}
+	})}
+}
+
+// ---------------------------------------------------------------- shared predicates
+
+// predicateInstance: ONE predicate tree per repetition; rep1 is part of three statements (s1 = rep1 AND rep2,
+// s2 = rep3 AND rep1, or = rep1 OR rep3), so its variables have different positions in different statements. Every
+// goroutine builds its own Prover / Verifier from the shared predicates.
+func predicateInstance(name string, seed int64) instance {
+	mkSuite := func() proof.Suite {
+		if name == "p256" {
+			return p256.NewBlakeSHA256P256()
+		}
+		return edwards25519.NewBlakeSHA256Ed25519()
+	}
+	su := mkSuite()
+	rs := stream(seed, "pred"+name)
+	x, y, z := su.Scalar().Pick(rs), su.Scalar().Pick(rs), su.Scalar().Pick(rs)
+	B := su.Point().Base()
+	H := su.Point().Mul(su.Scalar().SetInt64(41), nil)
+	points := map[string]kyber.Point{"B": B, "H": H, "X": su.Point().Mul(x, B), "Y": su.Point().Mul(y, H),
+		"Z": su.Point().Add(su.Point().Mul(z, B), su.Point().Mul(x, H))}
+	secrets := map[string]kyber.Scalar{"x": x, "y": y, "z": z}
+	type stmt struct {
+		pred   proof.Predicate
+		choice map[proof.Predicate]int
+	}
+	mkTree := func() map[string]stmt {
+		rep1 := proof.Rep("X", "x", "B")
+		rep2 := proof.Rep("Y", "y", "H")
+		rep3 := proof.Rep("Z", "z", "B", "x", "H")
+		or := proof.Or(rep1, rep3)
+		return map[string]stmt{"Rep": {rep1, nil}, "S1": {proof.And(rep1, rep2), nil}, "S2": {proof.And(rep3, rep1), nil},
+			"Or": {or, map[proof.Predicate]int{or: 1}}}
+	}
+	// valid proofs made once from a private tree
+	proofs := map[string][]byte{}
+	for n, st := range mkTree() {
+		p, err := proof.HashProve(su, "C20-"+n, st.pred.Prover(su, secrets, points, st.choice))
+		if err != nil {
+			panic(err)
+		}
+		proofs[n] = p
+	}
+	return instance{kind: "predicate", config: name, cost: 2, build: one(func(rep string) ops {
+		tree := mkTree()
+		fs := mkSuite()
+		verify := func(n string) func() string {
+			return func() string {
+				return fmt.Sprint(proof.HashVerify(fs, "C20-"+n, tree[n].pred.Verifier(fs, points), proofs[n]))
+			}
+		}
+		prove := func(n string) func() string {
+			return func() string {
+				st := tree[n]
+				p, err := proof.HashProve(fs, "C20-"+n, st.pred.Prover(fs, secrets, points, st.choice))
+				if err != nil {
+					return "prove: " + err.Error()
+				}
+				return fmt.Sprint(proof.HashVerify(fs, "C20-"+n, st.pred.Verifier(fs, points), p))
+			}
+		}
+		return ops{
+			"VerifyRep": verify("Rep"), "VerifyS1": verify("S1"), "VerifyS2": verify("S2"), "VerifyOr": verify("Or"),
+			"ProveS1": prove("S1"), "ProveS2": prove("S2"), "ProveOr": prove("Or"),
+			"String": func() string { return tree["S1"].pred.String() + tree["S2"].pred.String() + tree["Or"].pred.String() },
+		}
+	})}
+}
+
 // ---------------------------------------------------------------- registry
 
 // entry names a configuration without building it (building signs, pairs, hashes to curves ...).
@@ -813,6 +983,15 @@ func registry(seed int64) []entry {
 	for _, n := range []string{"ed25519", "edvt-proj", "p256", "bn256-g2", "kilic-g1"} {
 		name := n
 		out = append(out, entry{"pubpoly", name, func() instance { return pubPolyInstance(name, seed) }})
+	}
+	for _, n := range []string{"random.New", "random.New-goreaders", "ed25519-WithRand", "ed25519-WithRand-goreader",
+		"bn256-NewSuiteRand", "bn254-NewSuiteRand"} {
+		name := n
+		out = append(out, entry{"stream", name, func() instance { return streamInstance(name, seed) }})
+	}
+	for _, n := range []string{"ed25519", "p256"} {
+		name := n
+		out = append(out, entry{"predicate", name, func() instance { return predicateInstance(name, seed) }})
 	}
 	for _, n := range []string{"schnorr/ed25519", "schnorr/p256", "eddsa", "dleq/ed25519"} {
 		name := n
@@ -992,6 +1171,10 @@ func runShard(cfg Config, wls []Workload) (*outcome, error) {
 			if wl.Objs == "distinct" {
 				nobj = 2
 			}
+			if len(probe) == 0 {
+				out.Skipped["representation not offered by this configuration"]++
+				continue
+			}
 			if len(probe) < nobj {
 				out.Skipped["configuration offers no second object"]++
 				continue
@@ -1017,7 +1200,7 @@ func runShard(cfg Config, wls []Workload) (*outcome, error) {
 					sv, ok := seq[k]
 					if !ok {
 						a, b := inst.build(wl.Rep)[v][op](), inst.build(wl.Rep)[v][op]()
-						sv = seqv{a, a == b} // random draws are not compared
+						sv = seqv{a, a == b && !inst.unique} // random draws are not compared
 						seq[k] = sv
 					}
 					want[fmt.Sprint(v, "/", op)], det[fmt.Sprint(v, "/", op)] = sv.val, sv.det
@@ -1031,7 +1214,7 @@ func runShard(cfg Config, wls []Workload) (*outcome, error) {
 			}
 			newReports() // drain anything caused by set-up (attributed below as harness noise if any)
 			mism := map[string][2]string{}
-			var panics []string
+			var panics, dups []string
 			tw := time.Now()
 			done := 0
 			for r := 0; r < reps && (r < 1 || time.Since(tw) < budget); r++ {
@@ -1059,6 +1242,19 @@ func runShard(cfg Config, wls []Workload) (*outcome, error) {
 				close(start)
 				wg.Wait()
 				out.Runs += gor
+				if inst.unique {
+					seenDraw := map[string]int{}
+					for gi, got := range res {
+						for _, d := range strings.Split(got, ",") {
+							if pg, dup := seenDraw[d]; dup && d != "panic" {
+								op, _ := slot(gi)
+								pop, _ := slot(pg)
+								dups = append(dups, fmt.Sprintf("%s (goroutine %d) and %s (goroutine %d) drew %s", pop, pg, op, gi, d))
+							}
+							seenDraw[d] = gi
+						}
+					}
+				}
 				for gi, got := range res {
 					op, v := slot(gi)
 					k := fmt.Sprint(v, "/", op)
@@ -1095,6 +1291,16 @@ func runShard(cfg Config, wls []Workload) (*outcome, error) {
 					Key:    fmt.Sprintf("%s/%s/result-differs", base, op),
 					What:   "a read-only operation returned a different result under concurrent read-only use than when run alone",
 					Detail: detail(map[string]any{"op": op, "got": gw[0], "want": gw[1]}),
+				})
+			}
+			if len(dups) > 0 {
+				if len(dups) > 5 {
+					dups = dups[:5]
+				}
+				out.Violations = append(out.Violations, core.Violation{
+					Key:    fmt.Sprintf("%s/duplicate-draw", base),
+					What:   "two draws from one shared random stream returned the same bytes",
+					Detail: detail(map[string]any{"duplicates": dups}),
 				})
 			}
 			if len(panics) > 0 {
